@@ -5,6 +5,7 @@ patch="$1"; shift
 cd /repo || exit 2
 if ! git diff --quiet; then echo "repo dirty"; exit 2; fi
 if ! git apply "$patch"; then echo "PATCH DOES NOT APPLY"; exit 2; fi
+trap 'git -C /repo checkout -- .' EXIT INT TERM
 for c in "$@"; do
   tier=quick
   case "$c" in *:t) tier=thorough; c="${c%:t}";; esac
